@@ -13,21 +13,21 @@ FIX_COMMITS = []  # hook commits (none: the checker needs no source hooks)
 # id -> (claimed?, technique, level text, level note, design ref)
 P = {
  "C01": ("static analysis: SSA extraction of every graph-edge rule with dominating guards; value-routing dataflow rules",
-         "Structural necessary conditions, decided for every execution of the enumerated constructs: no edge-creating site joins label-incompatible vertices (type identical or provider-implements-consumer under an interface-kind guard; subtype equal or empty on one side; equal names between named vertices); vertex identity hashes every label; label fields immutable after construction; values routed by the vertex's own label in the path walk, output mapper and executor; no fabricated value outside the redefine flag; the implements rule is applied to every candidate without an unreviewed restriction; converter outputs mapped onto the graph are exactly the Result the executor returned for that step, and only Call and the resolver reach the executor. The behaviour itself (which value a re-used vertex carries across successive walks, flows through reflect containers) is not decided.",
-         "Trusted: go/ssa + go/types (x/tools v0.29.0), Go map semantics, reflect. Flow-insensitive field reasoning is licensed by the IMMUT rule checked in the same run.", "§4 EDGE/HASH/IMMUT/WALK/OUTMAP/ARGPOP/SIBLING/ORDER/FAB, §5 C01"),
+         "Structural necessary conditions, decided for every execution of the enumerated constructs: no edge-creating site joins label-incompatible vertices (type identical or provider-implements-consumer under an interface-kind guard; subtype equal or empty on one side; equal names between named vertices); vertex identity hashes every label; label fields immutable after construction; values routed by the vertex's own label in the path walk, output mapper and executor; no fabricated value outside the redefine flag; the implements rule is applied to every candidate without an unreviewed restriction; converter outputs mapped onto the graph are exactly the Result the executor returned for that step, and only Call and the resolver reach the executor; no object that lives across calls holds a per-call value store (a value supplied to one call cannot be injected into another); an argument-map entry filled from a vertex is filled from the vertex its key names. The behaviour itself (which value a re-used vertex carries across successive walks, flows through reflect containers) is not decided.",
+         "Trusted: go/ssa + go/types (x/tools v0.29.0), Go map semantics, reflect. Flow-insensitive field reasoning is licensed by the IMMUT rule checked in the same run.", "§4 EDGE/HASH/IMMUT/WALK/OUTMAP/ARGPOP/SIBLING/ORDER/FAB/BIND/SHARED-E, §5 C01"),
  "C02": ("static analysis: dominance/error-flow rules on the Call pipeline, must-pass guards around the unsatisfied report, termination witness for the resolver",
          "Decided structurally: target and converters execute only behind nil-error checks of option building, graph building and resolution; pruned requirements always yield the dedicated error; the executor's last-resort guard; every return of Call is an error Result on a non-nil-error branch or exactly the executor's Result after resolution (no memoised shortcut past resolution); edge rules join only label-compatible vertices (an unsatisfiable target cannot look satisfiable through a wrong edge); cyclic converter dependencies cannot recurse unboundedly. Not decided: that pruning computes exactly the least fixpoint of derivable values.",
          "Trusted: go/ssa, reflect.Value.Call returns what the function returned.", "§4 ERRFLOW/UNSAT/TERM/EDGE/EXEC-X8, §5 C02"),
  "C03": ("static analysis: abstract cost model (Bellman–Ford lower bound over the extracted edge-weight table) plus direct-use rule recognition",
-         "Decided: an exactly matching supplied named value is used directly (direct-use rule in the resolver) or every >=2-edge path is strictly dearer than the direct input edge; for type-only parameters every path through a function vertex costs more than the direct typed route; inputs overwrite the coinciding requirement vertex and hang off the root; path selection uses Dijkstra from the root on the reverse of the same graph; every supplied/generated converter is registered; every vertex added to a call's graph is freshly allocated; removing a vertex leaves no dangling in-edge; a requirement that needs no path is bound to its value before anything can overwrite the shared vertex; a nil value in a multi-value option skips only itself. Not decided: which of two equal-cost exact type-only candidates is taken.",
-         "Sound lower-bound argument: every tentative distance Dijkstra holds is the length of a real path. Trusted: go/ssa constant folding of weights.", "§4 PRIO/INPUT/EDGE-V/MIRROR-REMOVE, §5 C03"),
+         "Decided: an exactly matching supplied named value is used directly (direct-use rule in the resolver) or every >=2-edge path is strictly dearer than the direct input edge; for type-only parameters every path through a function vertex costs more than the direct typed route; inputs overwrite the coinciding requirement vertex and hang off the root; path selection uses Dijkstra from the root on the reverse of the same graph; every supplied/generated converter is registered; every vertex added to a call's graph is freshly allocated; removing a vertex leaves no dangling in-edge; a requirement that needs no path is bound to its value before anything can overwrite the shared vertex and only to the value of its own vertex; a nil value in a multi-value option skips only itself; the option list a call applies is its own private list (defaults, then call options). Not decided: which of two equal-cost exact type-only candidates is taken.",
+         "Sound lower-bound argument: every tentative distance Dijkstra holds is the length of a real path. Trusted: go/ssa constant folding of weights.", "§4 PRIO/INPUT/EDGE-V/MIRROR-REMOVE/BIND/OPTORDER, §5 C03"),
  "C04": ("static analysis: Result typestate (Err()==nil dominance), error-identity taint rule, final-error predicate agreement",
          "Decided: after each converter execution the result's error is checked and returned unchanged before anything else runs; error values on the chain are only returned/stored/boxed, never wrapped; the target executes only on the nil branch; the final-error predicate is type identity at the last position everywhere and Result.Err reports the final output as the error under exactly the reviewed conditions (a typed-nil error is still an error); no per-call cache of converter results.", "Trusted: reflect.Value.Call, go/ssa.", "§4 ERRFLOW/ERRPRED/EXEC-X7, §5 C04"),
  "C05": ("static analysis: five necessary structural conditions (chaining edge class, pruning guard, path search pairing, argument-map plumbing, in-progress-set stack discipline)",
          "Necessary structural conditions of chaining only (chaining and implements edge classes present and unrestricted, every converter registered, pruning guard, path search pairing on a per-parameter private copy, argument-map plumbing, in-progress-set stack discipline); completeness of chaining and outcome stability over map order are NOT decided (no sound static argument in reach bounds reachability in a runtime-built graph or randomized iteration).", "Each clause is a genuine necessary condition: breaking it breaks chaining for some well-behaved converter set.", "§5 C05"),
- "C06": ("static analysis: reachable-panic audit, reflect.Value validity typestate, positional packing agreement, StructOf name uniqueness, termination witnesses",
-         "Decided: every explicit panic reachable from Call/Convert/Redefine is discharged mechanically or by a reviewed invariant table; reflect.Value methods on API inputs are dominated by IsValid; nil options are rejected; slices indexed by struct-field ordinal are sized by the value list; dynamic struct field names are unique; every recursive SCC carries a visited/in-progress witness and every loop is regular or in the reviewed table; Dijkstra's predecessor map is only written together with a lowered distance on unsettled vertices (acyclic walk); vertex values are assigned only under validity/assignability guards; Remove leaves no dangling edge. Not decided: panics raised inside reflect for other reasons, exhaustion by sheer size.",
-         "Trusted: reflect, hclog; reviewed invariant tables are listed in the checker source with one reason each.", "§4 PANIC/REFLVALID/NILOPT/PACK/STRUCTOF/TERM, §5 C06"),
+ "C06": ("static analysis: reachable-panic audit, compiler-unproven bounds checks justified by guards/loop bounds/reviewed length invariants, reflect.Value validity typestate, positional packing agreement, StructOf name uniqueness, termination witnesses",
+         "Decided: every explicit panic reachable from Call/Convert/Redefine is discharged mechanically or by a reviewed invariant table; reflect.Value methods on API inputs are dominated by IsValid; nil options are rejected; slices indexed by struct-field ordinal are sized by the value list; dynamic struct field names are unique; every recursive SCC carries a visited/in-progress witness and every loop is regular or in the reviewed table; Dijkstra's predecessor map is only written together with a lowered distance on unsettled vertices (acyclic walk); vertex values are assigned only under validity/assignability guards; Remove leaves no dangling edge; every index or slice expression the Go compiler cannot prove in range is bounded by a dominating guard, a loop bound, its construction or a reviewed length invariant of where the slice comes from (BOUNDS); every *Func entering a converter list is non-nil (NILOPT-F). Not decided: panics raised inside reflect for other reasons, exhaustion by sheer size.",
+         "Trusted: reflect, hclog; reviewed invariant tables are listed in the checker source with one reason each.", "§4 PANIC/BOUNDS/REFLVALID/NILOPT/NILOPT-F/PACK/STRUCTOF/TERM, §5 C06"),
  "C07": ("static analysis: weight-order and discount-loop rules over the extracted edge table",
          "Decided clauses: the matching-name discount is negative and strictly below every other in-edge weight, applied only to in-edges of same-named value vertices, on a private copy of the graph, and the named requirement edge is cheaper than the typed route; converter results are not cached across positions of one call; requirements that already carry a value are bound when classified (not re-read after sibling paths ran). Not decided: optimality of Dijkstra under a negative edge, tie-breaking.", "Trusted: go/ssa constant folding.", "§4 PRIO-W/D/P, §5 C07"),
  "C08": ("static analysis: must-pass-edge gating of redefine root edges, input-set provenance, exclusion key-space agreement, output-filter error flow",
@@ -45,7 +45,7 @@ P = {
  "C14": ("static analysis: lower-casing dataflow, final-error predicate, validity typestate, tag writer/reader agreement, rejection error paths",
          "Decided clauses: names are always lower-cased; final error excluded by type identity at the last position; non-function/nil values rejected with an error; tag namespace and option keys agree between writers and the reader; documented rejections return errors. Not decided: declaration order, tag parsing details, unexported-field skipping.", "Trusted: reflect.", "§4 LOWER/ERRPRED/REFLVALID/TAGS, §5 C14"),
  "C15": ("static analysis: positional packing agreement across the five packing sites, tag agreement, adapter error plumbing",
-         "Decided clauses: slices indexed by field ordinal are sized by and filled from the ordered value list; tag writers and reader agree; FromSignature cannot fail; the adapter appends the callback's error as the final result; value-set accessors scan/look up by the value's own label; no value set or parsed struct is cached in package state. Not decided: value equality through reflect, lookup semantics of Typed/TypedSubtype.", "Trusted: reflect.", "§4 PACK/TAGS, §5 C15"),
+         "Decided clauses: slices indexed by field ordinal are sized by and filled from the ordered value list; tag writers and reader agree; FromSignature cannot fail; the adapter appends the callback's error as the final result; value-set accessors scan/look up by the value's own label; no value set or parsed struct is cached in package state; Signature, SignatureValues and FromSignature treat the set as empty under the same test (sibling agreement). Not decided: value equality through reflect, lookup semantics of Typed/TypedSubtype.", "Trusted: reflect.", "§4 PACK/TAGS, §5 C15"),
  "C16": ("static analysis: lower-casing dataflow, option-order recogniser, nil-option and nil-value guards",
          "Decided: keys of the builder's named maps are ToLower results; defaults precede call options in the slice handed to the applier which iterates in increasing order; nil options return an error; nil values are ignored; accumulation is plain map assignment; an invalid (nil) value in a multi-value option skips only itself. Not decided: permutation invariance beyond map semantics and C03.", "Trusted: Go map semantics.", "§4 LOWER/OPTORDER/NILOPT, §5 C16"),
  "C17": ("static analysis: final-error predicate agreement, Result literal discipline, Len/Out arithmetic",
